@@ -178,8 +178,8 @@ impl Recorder {
             return;
         }
         let mut detail = detail;
-        if detail.len() > 1500 {
-            detail.truncate(1500);
+        if detail.len() > 4000 {
+            detail.truncate(4000);
         }
         self.violations.push(Violation {
             property: property.to_string(),
